@@ -27,11 +27,11 @@ template <class T> static void run_T(Choice &c, Ctx &cx)
     cx.label(std::string("colperm=") + colperm_name(o.colperm));
     cx.label(o.nr ? "storage=NR" : "storage=NC");
     cx.label(fmt("nrhs=%d", nrhs));
-    if (cx.is_known("F-SS") && struct_rank(G) < n) { cx.exclude("F-SS"); cx.label("struct-singular(excluded)"); return; }
+    if (cx.is_known("F-SS") && maybe_exactly_singular(G)) { cx.exclude("F-SS"); cx.label("exactly-singular(excluded)"); return; }
 
     Dense<W> A0 = dense_of(S);                   // the caller's A
     Dense<W> AA = o.nr ? transpose(A0) : A0;     // the matrix that is factored
-    vf_case_begin(0xA5);
+    vf_case_begin(cx.fill(0xA5));
     apply_tuning(o.tune);
     superlu_options_t so; set_default_options(&so); apply_opts(o, so);
     std::vector<int> perm_r(n, -1), perm_c(n, -1);
@@ -52,7 +52,7 @@ template <class T> static void run_T(Choice &c, Ctx &cx)
         if (std::memcmp(&B[(size_t)j * ldb + i], &B0[(size_t)j * ldb + i], sizeof(T)) != 0) { cleanup(); vf_purge(); VF_FAIL(cx, "padding", "padding row %d of right-hand side %d (ldb=%d > n=%d) was overwritten", i, j, ldb, n); }
     if (std::memcmp(&B.back(), &B0.back(), sizeof(T)) != 0) { cleanup(); vf_purge(); VF_FAIL(cx, "padding", "element past the end of B was overwritten"); }
     if (info > 0) {
-        cx.label("info>0");
+        cx.label("singular-return");
         bool same = bytes_equal(B, B0);
         cleanup();
         VF_REQUIRE(cx, same, "rhs-touched-on-singular", "info=%lld but B was modified", (long long)info);
